@@ -489,6 +489,18 @@ impl Read for SimDisk {
 }
 
 impl Write for SimDisk {
+    /// A gathering sink, like File, Cursor, Vec and BufWriter: one call takes all the slices (or, under a short-write
+    /// decision, a prefix of their concatenation). The policy sees it as one write.
+    fn write_vectored(&mut self, bufs: &[io::IoSlice<'_>]) -> io::Result<usize> {
+        if bufs.iter().filter(|b| !b.is_empty()).count() <= 1 {
+            return match bufs.iter().find(|b| !b.is_empty()) {
+                Some(b) => self.write(b),
+                None => self.write(&[]),
+            };
+        }
+        let joined: Vec<u8> = bufs.iter().flat_map(|b| b.iter().copied()).collect();
+        self.write(&joined)
+    }
     fn write(&mut self, buf: &[u8]) -> io::Result<usize> {
         let req = buf.len() as u64;
         let (call, d) = {
